@@ -285,6 +285,19 @@ func vfC25Gen(rt *rapid.T) vfC25Case {
 	if c.Versioned {
 		raceKinds = append(raceKinds, vfC25Publish, vfC25Publish, vfC25Publish)
 	}
+	if rapid.IntRange(0, 2).Draw(rt, "dropRetrack") > 0 {
+		// A key that only one connection tracks gets updates, loses its last tracker (its itemIndex entry is dropped while the
+		// other keys keep the channel state and its epoch alive), changes again and is tracked again with the remembered version.
+		dc := rapid.IntRange(0, 1).Draw(rt, "dropConn")
+		adv := vfC25Step{Kind: vfC25Adv, Adv: 1}
+		c.Steps = append(c.Steps, tr(dc, 2), adv)
+		for u := rapid.IntRange(1, 3).Draw(rt, "dropUpdates"); u > 0; u-- {
+			c.Steps = append(c.Steps, vfC25Step{Kind: vfC25Set, Key: 2, Bump: 1, Gate: true}, adv)
+		}
+		c.Steps = append(c.Steps, vfC25Step{Kind: vfC25Untrack, Conn: dc, Keys: []int{2}}, vfC25Step{Kind: vfC25Set, Key: 2, Bump: 1},
+			vfC25Step{Kind: vfC25Track, Conn: dc, Batches: [][]vfC25Pick{{{Key: 2, Cache: rapid.IntRange(0, 3).Draw(rt, "dropCache") > 0}}}},
+			vfC25Step{Kind: vfC25Adv, Adv: 2})
+	}
 	n := rapid.IntRange(8, 40).Draw(rt, "nsteps")
 	window := 0 // >0: inside a poll window opened by armPoll: draw racing operations, then answer the poll
 	for i := 0; i < n; i++ {
@@ -1249,6 +1262,18 @@ func vfC25Run(t *testing.T, cs vfC25Case, out *vfC25Out, isKnown func(string) bo
 			go w.broker.ReleaseHeld(i)
 			vfSettle()
 		}
+		liveStateEpoch := func() string {
+			m := w.node.sharedPollManager
+			m.mu.RLock()
+			st := m.channels[vfC25Chan]
+			m.mu.RUnlock()
+			if st == nil {
+				return "<no state>"
+			}
+			st.mu.Lock()
+			defer st.mu.Unlock()
+			return st.epoch
+		}
 		winParked := func() bool {
 			for _, g := range w.Gates.AnyWaiting() {
 				if strings.HasPrefix(g, "trackwin:") {
@@ -1326,9 +1351,15 @@ func vfC25Run(t *testing.T, cs vfC25Case, out *vfC25Out, isKnown func(string) bo
 						// A client reuses a stored version only when the subscription's epoch equals the one the version was
 						// received under (the documented client rule); without publisher epochs versions never restart.
 						cacheValid := ks.ver > 0 && (cs.EpochMode == 0 || (ks.cacheEp == st.subEpoch && st.subEpoch != ""))
+						if !cs.Versioned {
+							// Versionless: synthetic versions are valid under the epoch of the subscribe reply. The harness only lets a
+							// client reuse one while that epoch is still the live channel state's epoch (a state recreated during the
+							// subscription changes the epoch without telling the client; that corner is not judged here).
+							cacheValid = ks.ver > 0 && ks.cacheEp == st.subEpoch && st.subEpoch != "" && st.subEpoch == liveStateEpoch()
+						}
 						switch {
-						case !cs.Versioned:
-							v = 0 // synthetic versions belong to one lifetime of the server's channel state, which a client cannot observe
+						case !cs.Versioned && !cacheValid:
+							v = 0
 						case ks.tracked:
 							v = ks.ver // re-track of a key the connection tracks right now: a client sends the version it holds
 						case p.Cache && cacheValid:
@@ -1346,8 +1377,24 @@ func vfC25Run(t *testing.T, cs vfC25Case, out *vfC25Out, isKnown func(string) bo
 					req.Untrack = append(req.Untrack, vfC25Keys[k])
 					a.inline = append(a.inline, vfC25Keys[k])
 				}
-				if s.Gate {
+				parkOnTrack := s.Gate
+				if !cs.Versioned {
+					for _, v := range a.claims {
+						if v > 0 {
+							parkOnTrack = false // the claimed synthetic version must be committed under the state it was checked against
+						}
+					}
+				}
+				if parkOnTrack {
 					w.Gates.Arm("track:"+cr.c.Name, 1)
+				}
+				if !cs.Versioned {
+					for _, v := range a.claims {
+						if v > 0 {
+							out.label("versionless_track_claims_remembered_version")
+							break
+						}
+					}
 				}
 				if s.GateB {
 					w.Gates.Arm("trackwin:"+cr.c.Name, 1)
